@@ -20,11 +20,9 @@ CHECK = dict(
               rapid("prop", "TestVerifProp", 240_000, 12_000_000, sq=8, st=16, shrinktime="10s"),
               rapid("free", "TestVerifFree", 20_000, 500_000, sq=8, st=16,
                     race=dict(quick=False, thorough=True), shrinktime="10s"),
-              # copy: no race detector yet - it reports a data race of reghttp itself (sortHostsCmp reads
-              # clientHost.backoffLast without the host mutex; proposed fix in
-              # /var/tmp/audit-patches/C17-obs-reghttp-sorthosts-reads-backoff-unlocked.diff). With that fix the job is
-              # race clean; then set race=dict(quick=False, thorough=True).
-              rapid("copy", "TestVerifCopy", 1_200, 40_000, sq=4, st=16, race=False, shrinktime="10s")],
+              # copy: thorough runs under the race detector (the data race it first reported in reghttp's sortHostsCmp
+              # was repaired in /repo by 2a8301e)
+              rapid("copy", "TestVerifCopy", 1_200, 40_000, sq=4, st=16, race=dict(quick=False, thorough=True), shrinktime="10s")],
         technique="property-based testing (rapid) of generated worker programs under (1) a schedule controller that owns every interleaving "
                   "point of internal/pqueue through build-tag hooks and (2) free-running goroutines with the race detector; oracles: "
                   "harness-side holder count, quiescence analysis (lost wake-up / deadlock), acquire result rules, final drain test",
